@@ -4363,7 +4363,8 @@ class QapRun:
                  "__step__": lambda *a: None, "__enter__": lambda *a: None, "__leave__": lambda *a: None,
                  "__caught__": lambda k, e, m=(): self.caught.append((k, type(e).__name__, str(e)[:80])),
                  "__CAUGHT__": Exception, "__set_ie__": lambda v: None, "__cv__": lambda c: 0,
-                 "__valret__": lambda o, r: None}
+                 "__valret__": lambda o, r: None, "LinCombFxp": w.fixedpoint.LinCombFxp,
+                 "__poseidon__": lambda xs: importlib.import_module("pysnark.poseidon_hash").poseidon_hash(list(xs))}
 
             def ckpt():
                 # an explicit backend.prove() in the middle of the script; the one at exit follows
@@ -4386,6 +4387,8 @@ class QapRun:
                     self.outcome = "completed"
                 except Exception as e:
                     self.outcome = "raised:%s:%s" % (type(e).__name__, str(e)[:100])
+                if any(c[1] == "NameError" for c in self.caught):
+                    raise W.HarnessError("generated script names something its namespace lacks: %r" % (self.caught,))
                 self.calls_before_prove = len(w.sub.calls)
                 if self.outcome == "completed":
                     fs.reader = "prove"
@@ -4779,6 +4782,14 @@ class C12(TraceCheck):
             # surroundings: the program itself sets a directory variable after the import (too late to matter)
             plan["body"].insert(r5.randrange(0, len(plan["body"]) + 1),
                                 {"s": "setenv", "name": r5.choice(["PYSNARK_KEYDIR", "PYSNARK_PROOFDIR"]), "value": "elsewhere"})
+        r7 = _random.Random("fxpconst/%s" % P.plan_digest(plan))
+        if r7.random() < 0.08 and not case.get("edited_subqaps"):
+            # two features meeting: a function that does fixed-point arithmetic with a float constant which its caller
+            # has just used too
+            plan["subqaps"].append({"name": "fxk", "nargs": 1, "tmpl": 13, "inner": None})
+            for _ in range(r7.randrange(1, 3)):
+                plan["body"].append({"s": "subqap_call", "fn": len(plan["subqaps"]) - 1,
+                                     "args": [{"ref": r7.randrange(0, 16), "t": "I"} for _ in range(3)], "try": True})
         r4 = _random.Random("ckpt/%s" % P.plan_digest(plan))
         if r4.random() < 0.15 and not case["second_run"] and not case.get("edited_subqaps"):
             # history: an explicit prove() in the middle of the script, the one at exit follows (single run, no
